@@ -79,6 +79,11 @@ func Parse(s string) (ByteSize, error) {
 		return 0, fmt.Errorf("%w: no digits in: %s", ErrInvalidFormat, s)
 	}
 
+	if !foundUnit {
+		// A size is written as digits followed by a unit (B, K, M, G, T); a bare number is not one
+		return 0, fmt.Errorf("%w: no unit in: %s", ErrInvalidFormat, s)
+	}
+
 	if num > math.MaxInt64/multiplier {
 		return 0, fmt.Errorf("%w: size too large in: %s", ErrInvalidFormat, s)
 	}
